@@ -2116,7 +2116,8 @@ func (vm *VM) run(depth int) (Addr, bool) {
 				case reflect.Struct:
 					switch v := rv.Interface().(type) {
 					case *callable:
-						zero = v.fn == nil
+						// A nil function is a callable with a nil native function.
+						zero = v.fn == nil && v.Native().value.IsNil()
 					case interface{ IsTrue() bool }:
 						zero = !v.IsTrue()
 					}
